@@ -340,10 +340,10 @@ def c19(work, tier, seed, replay):
     # (1) the hostile-server menu, enumerated by TLC from Totality.tla
     r = require_ok(tlc(work, "Totality", cfg_text(spec="Spec", constants={}, invariants=["OnlyAllowed", "EmitScen"], properties=["Total"]), name="MC_Totality", timeout=600),
                    "design check Totality")
-    rep.add_model("Totality (5 feeders and the three Rekor shards of one instance x 2 witness states x 19 checkpoint classes x 9 data classes; the REST distributor x 12 distributor answers)", r)
+    rep.add_model("Totality (5 feeders and the three Rekor shards of one instance x 2 witness states x 19 checkpoint classes x 9 data classes; the REST distributor x 12 distributor answers; first submissions of thousands of logs at once)", r)
     scens = [json.loads(x) for x in sorted(set(r.prints("HOSTILE")))]
     if tier == "quick":
-        must = [s for s in scens if s["feeder"] == "distributor" or (s["feeder"] == "rekor-shards" and s["wit"] == "held" and s["cp"] in ("valid", "status500", "random", "json-odd-types", "truncated") and s["data"] in ("valid", "status500")) or (s["wit"] == "held" and s["cp"] == "valid") or (s["wit"] == "held" and s["cp"] in ("hash0", "hash5", "hash33") and s["data"] == "valid") or (s["cp"].startswith("size2") and s["data"] == "valid") or (s["feeder"] == "rekor" and (s["cp"].startswith("json-") or s["data"].startswith("json-")) and s["data"] in ("valid", "json-null", "json-odd") and s["cp"] in ("valid", "json-null-shard", "json-inactive-shard", "json-odd-types"))]
+        must = [s for s in scens if s["feeder"] in ("distributor", "storm") or (s["feeder"] == "rekor-shards" and s["wit"] == "held" and s["cp"] in ("valid", "status500", "random", "json-odd-types", "truncated") and s["data"] in ("valid", "status500")) or (s["wit"] == "held" and s["cp"] == "valid") or (s["wit"] == "held" and s["cp"] in ("hash0", "hash5", "hash33") and s["data"] == "valid") or (s["cp"].startswith("size2") and s["data"] == "valid") or (s["feeder"] == "rekor" and (s["cp"].startswith("json-") or s["data"].startswith("json-")) and s["data"] in ("valid", "json-null", "json-odd") and s["cp"] in ("valid", "json-null-shard", "json-inactive-shard", "json-odd-types"))]
         rest = [s for s in scens if s not in must]
         rng.shuffle(rest)
         scens = must + rest[:220]
